@@ -407,6 +407,7 @@ class Gen:
         self.derivable = []
         self.link_attrs = link_attrs
         self.counter = 0
+        self.script = []
 
     def fresh_name(self):
         self.counter += 1
@@ -420,7 +421,75 @@ class Gen:
             return (max(self.uids) if self.uids else 0) + self.rng.randint(1, 3)     # never issued
         return self.rng.choice(self.uids) if self.uids else 1
 
+    def scripted(self):
+        """Fixed scenario run before the random histories: every handler and every lifecycle path that writes more than
+        one statement (destroy of a compromised object = UPDATE + DELETE, key pair with names, derivations, each
+        attribute operation on an object that has the attribute)."""
+        last = lambda: self.uids[-1]
+        KC, CO = enums.RevocationReasonCode.KEY_COMPROMISE, enums.RevocationReasonCode.CESSATION_OF_OPERATION
+
+        def act(u=None):
+            u = last() if u is None else u
+            return [{'kind': 'activate', 'uid': u}], [kdrv.activate(str(u))], (1, 2)
+
+        def rev(comp):
+            return [{'kind': 'revoke', 'uid': last(), 'compromise': comp}], [kdrv.revoke(str(last()), code=KC if comp else CO)], (1, 2)
+
+        def des():
+            return [{'kind': 'destroy', 'uid': last()}], [kdrv.destroy(str(last()))], (1, 2)
+
+        def create2(derivable):
+            names = [self.fresh_name(), self.fresh_name()]
+            mask = [MASK.ENCRYPT, MASK.DECRYPT] + ([MASK.DERIVE_KEY] if derivable else [])
+            return [{'kind': 'create', 'valid': True, 'names': 2, 'name_list': names, 'derivable': derivable}], \
+                [kdrv.create(mask=mask, names=names)], (1, 2)
+
+        def attr(how):
+            u = last()
+            have = self.names.get(u, [])
+            d = {'kind': 'attr', 'how': how, 'uid': u}
+            if how == 'modify-name':
+                new = self.fresh_name()
+                d.update(index=1, new=new)
+                return [d], [kdrv.modify_attribute_v1(str(u), kdrv.attr(AT.NAME, kdrv.name_value(new), 1))], (1, 2)
+            if how == 'delete-name':
+                d.update(index=0, deleted=have[0] if have else None)
+                return [d], [kdrv.delete_attribute_v1(str(u), 'Name', 0)], (1, 2)
+            if how == 'set-sensitive':
+                return [d], [kdrv.set_attribute(str(u), kdrv.attr_value('SENSITIVE', True))], (2, 0)
+            if how == 'modify-name-v2':
+                new, cur = self.fresh_name(), have[0]
+                d.update(cur=cur, new=new)
+                return [d], [kdrv.modify_attribute_v2(str(u), kdrv.attr_value('NAME', kdrv.name_value(new)),
+                                                      kdrv.attr_value('NAME', kdrv.name_value(cur)))], (2, 0)
+            d.update(deleted=have[0] if have else None)
+            return [d], [kdrv.delete_attribute_v2(str(u), reference=kdrv.attr_ref2('Name'))], (2, 0)
+
+        def keypair11():
+            pub = [kdrv.attr(AT.CRYPTOGRAPHIC_USAGE_MASK, [MASK.VERIFY]), kdrv.attr(AT.NAME, kdrv.name_value(self.fresh_name()), 0)]
+            priv = [kdrv.attr(AT.CRYPTOGRAPHIC_USAGE_MASK, [MASK.SIGN]), kdrv.attr(AT.NAME, kdrv.name_value(self.fresh_name()), 0)]
+            return [{'kind': 'keypair', 'valid': True, 'pub_names': 1, 'priv_names': 1}], [kdrv.create_key_pair(private=priv, public=pub)], (1, 2)
+
+        def reg(ot):
+            return [{'kind': 'register', 'valid': True, 'ot': ot.value, 'names': 0, 'name_list': []}], [kdrv.register(ot)], (1, 2)
+
+        def derive(ot):
+            base = self.derivable[-1]
+            attrs = kdrv.sym_attrs(enums.CryptographicAlgorithm.AES, 128, kdrv.ENC_DEC)
+            if ot == OT.SECRET_DATA:
+                attrs = [kdrv.attr(AT.CRYPTOGRAPHIC_LENGTH, 128), kdrv.attr(AT.CRYPTOGRAPHIC_USAGE_MASK, [MASK.DERIVE_KEY])]
+            return [{'kind': 'derive', 'valid': True, 'ot': ot.value, 'names': 0, 'name_list': [], 'base': base}], \
+                [kdrv.derive_key([str(base)], params=derivation_params(), attrs=attrs, otype=ot)], (1, 2)
+        return [lambda: create2(False), lambda: rev(True), lambda: rev(True), des,
+                keypair11, act, lambda: rev(False), des,
+                lambda: reg(OT.OPAQUE_DATA), des, lambda: reg(OT.CERTIFICATE), lambda: rev(True), des,
+                lambda: create2(True), lambda: derive(OT.SYMMETRIC_KEY), lambda: derive(OT.SECRET_DATA), act, des,
+                lambda: create2(False), lambda: attr('modify-name'), lambda: attr('delete-name'), lambda: attr('set-sensitive'),
+                lambda: attr('modify-name-v2'), lambda: attr('delete-name-ref'), self.g_link_create, lambda: rev(True), des]
+
     def step(self):
+        if self.script:
+            return self.script.pop(0)()
         rng = self.rng
         c = rng.random()
         if c < 0.14:
@@ -524,7 +593,7 @@ class Gen:
             return [d], [kdrv.modify_attribute_v1(str(u), kdrv.attr(AT.STATE, enums.State.ACTIVE))], (1, 2)
         if how == 'delete-name':
             i = rng.randrange(len(have)) if have else 0
-            d.update(index=i)
+            d.update(index=i, deleted=(have[i] if i < len(have) else None))
             return [d], [kdrv.delete_attribute_v1(str(u), 'Name', i)], (1, 2)
         if how == 'set-sensitive':
             return [d], [kdrv.set_attribute(str(u), kdrv.attr_value('SENSITIVE', True))], (2, 0)
@@ -534,6 +603,7 @@ class Gen:
             d.update(cur=cur, new=new)
             return [d], [kdrv.modify_attribute_v2(str(u), kdrv.attr_value('NAME', kdrv.name_value(new)),
                                                   kdrv.attr_value('NAME', kdrv.name_value(cur)))], (2, 0)
+        d.update(deleted=(have[0] if have else None))
         return [d], [kdrv.delete_attribute_v2(str(u), reference=kdrv.attr_ref2('Name'))], (2, 0)
 
     def g_batch(self):
@@ -566,7 +636,10 @@ class Gen:
             return
         p = item['payload'] or {}
         if d['kind'] in ('create', 'register', 'derive', 'link-create'):
-            u = int(p['unique_identifier'])
+            try:
+                u = int(p['unique_identifier'])
+            except (TypeError, ValueError):
+                return
             self.uids.append(u)
             self.names[u] = list(d.get('name_list', []))
             if d.get('derivable'):
@@ -621,7 +694,7 @@ def attr_writes(events, pre_proj, post_proj, only=None):
     return ws
 
 
-def run_history(ctx, name, n_steps, rng, snapshots=True, link_attrs=True):
+def run_history(ctx, name, n_steps, rng, snapshots=True, link_attrs=True, scripted=False):
     """Runs a generated history on a fresh engine with the recorder attached; evaluates the direct oracle on
     every snapshot; returns the Coq cases and their descriptions."""
     hdir = ctx.work / name
@@ -629,6 +702,10 @@ def run_history(ctx, name, n_steps, rng, snapshots=True, link_attrs=True):
     eng = kdrv.Engine(workdir=str(hdir))
     rec = Recorder(eng, hdir / 'snaps', snapshots=snapshots)
     gen = Gen(rng, link_attrs)
+    if scripted:
+        gen.script = gen.scripted()
+        n_steps = len(gen.script)
+        link_attrs = False
     cases, meta = [], []
     cache = {}
 
@@ -782,9 +859,14 @@ def effect_missing(d, it, pre, post):
     kind = d['kind']
 
     def uid_of(x):
-        return int(x['value'] if isinstance(x, dict) else x)
+        try:
+            return int(x['value'] if isinstance(x, dict) else x)
+        except (TypeError, ValueError):
+            return -1
     if kind in ('create', 'register', 'derive', 'link-create'):
         u = uid_of(p['unique_identifier'])
+        if u < 0:
+            return 'the response names the identifier %r, no such object exists' % (p['unique_identifier'],)
         if u not in live or u not in post['api'] or post['api'][u][0] == 'unreadable':
             return 'object %d does not exist / cannot be read' % u
         want = d.get('name_list')
@@ -819,6 +901,8 @@ def effect_missing(d, it, pre, post):
             return 'object %d lacks the name %r it was given' % (u, d['new'])
         if d['how'] == 'modify-name-v2' and d['cur'] in names:
             return 'object %d still has the replaced name %r' % (u, d['cur'])
+        if d['how'] in ('delete-name', 'delete-name-ref') and d.get('deleted') is not None and d['deleted'] in names:
+            return 'object %d still has the deleted name %r' % (u, d['deleted'])
         if d['how'] == 'set-sensitive':
             # Sensitive is a KMIP 1.4 attribute and the restarted server is read under 1.2: look at the stored column
             rows_ = [json.loads(x) for x in post['raw'].get('managed_objects', [])]
@@ -1070,6 +1154,9 @@ def run(ctx):
         cases.append('CClass %s [%s]' % (cp.z(ot.value), '; '.join(cp.z(TABLES[t]) for t in class_tables_of(ot))))
         meta.append({'case': 'class-tables', 'object_type': ot.name, 'tables': class_tables_of(ot)})
     n_hist, n_steps = (8, 30) if quick else (24, 50)
+    c, m = run_history(ctx, 'hscript', 0, ctx.subrng('history/script'), scripted=True)
+    cases += c
+    meta += m
     for h in range(n_hist):
         c, m = run_history(ctx, 'h%02d' % h, n_steps, ctx.subrng('history/%d' % h))
         cases += c
@@ -1109,10 +1196,12 @@ def replay(ctx, data):
     inp = data.get('input') or {}
     ctx.log('replaying seed %d: %s' % (ctx.seed, data.get('what') or data.get('no_longer_checks')))
     if isinstance(inp, dict) and str(inp.get('history', '')).startswith('h'):
-        h = int(inp['history'][1:])
         quick = ctx.tier == 'quick'
         n_steps = 30 if quick else 50
-        cases, meta = run_history(ctx, inp['history'], n_steps, ctx.subrng('history/%d' % h))
+        if inp['history'] == 'hscript':
+            cases, meta = run_history(ctx, 'hscript', 0, ctx.subrng('history/script'), scripted=True)
+        else:
+            cases, meta = run_history(ctx, inp['history'], n_steps, ctx.subrng('history/%d' % int(inp['history'][1:])))
         bad = ctx.run_cases('txn', HEADER, cases, 'check_tcase')
         for i in bad[:5]:
             ctx.disagreement('txn', {k: v for k, v in meta[i].items() if not k.startswith('coq_')})
